@@ -176,6 +176,18 @@ func runC20(cs *Case) (*CaseStats, error) {
 		if err := mustFail(what+" [removed through the storage]", s2, nRoots); err != nil {
 			return st, err
 		}
+		// ... where the slab is still in the read cache and in the ledger, but gone for every reader of the storage:
+		// the all-child-references query must report it as broken, too
+		refs2, broken2, err := s2.GetAllChildReferences(owner.ID)
+		if err != nil {
+			return st, e.viol("GetAllChildReferences failed on a storage with a removed slab: %v", err)
+		}
+		if len(broken2) != 1 || broken2[0] != si.ID {
+			return st, e.viol("GetAllChildReferences(%s) after %s [removed through the storage] reports broken=%v", owner.ID, what, broken2)
+		}
+		if len(refs2) != wantN {
+			return st, e.viol("GetAllChildReferences(%s) after %s [removed through the storage] returns %d resolvable references, expected %d", owner.ID, what, len(refs2), wantN)
+		}
 		// 3. the same on a BasicSlabStorage
 		bs := atree.NewBasicSlabStorage(EncMode, DecMode, DecodeStorable, DecodeTypeInfo)
 		for id, b := range e.L.Regs {
@@ -288,6 +300,48 @@ func runC20(cs *Case) (*CaseStats, error) {
 			}
 			st.label("foreign_owner_only")
 		}
+	}
+	// (d'') the same with the temporary (zero) address at either end: a temporary container that holds an owned root,
+	// and an owned array that holds a temporary container
+	for _, q := range e.Roots {
+		s, err := loadAll(e.L.Clone())
+		if err != nil {
+			return st, e.viol("%v", err)
+		}
+		t, err := atree.NewArray(s, atree.AddressUndefined, TI{N: 1})
+		if err != nil {
+			return st, e.viol("NewArray failed: %v", err)
+		}
+		if err := t.Append(RawRef{ID: q.Root}); err != nil {
+			return st, e.viol("planting a reference failed: %v", err)
+		}
+		// q is referenced now and t is a root: the number of roots is unchanged
+		if err := mustFail(fmt.Sprintf("nesting root %s under a container with the temporary address", q.Root), s, nRoots); err != nil {
+			return st, err
+		}
+		st.label("temp_owner_parent")
+		if q.IsMap {
+			continue
+		}
+		s, err = loadAll(e.L.Clone())
+		if err != nil {
+			return st, e.viol("%v", err)
+		}
+		t, err = atree.NewArray(s, atree.AddressUndefined, TI{N: 1})
+		if err != nil {
+			return st, e.viol("NewArray failed: %v", err)
+		}
+		a, err := atree.NewArrayWithRootID(s, q.Root)
+		if err != nil {
+			return st, e.viol("open failed: %v", err)
+		}
+		if err := a.Append(RawRef{ID: t.SlabID()}); err != nil {
+			return st, e.viol("planting a reference failed: %v", err)
+		}
+		if err := mustFail(fmt.Sprintf("nesting a container with the temporary address under root %s", q.Root), s, nRoots); err != nil {
+			return st, err
+		}
+		st.label("temp_owner_child")
 	}
 	st.Add("corrupted_storages", evals)
 	st.Add("slabs", len(ref.Order))
